@@ -129,6 +129,10 @@ def run_kani_for(root, pid, specs, tier, seed, work):
                     elif any(("unwinding assertion" in f) or ("not supported" in f.lower()) or ("unsupported" in f.lower()) for f in failed) and not any(("assertion failed" in f) for f in failed):
                         h["status"] = "undecided"
                         h["reason"] = "bound / unsupported construct: " + h["failed_checks"][:300]
+                    elif s.get("only") and not any(re.search(s["only"], f) for f in failed):
+                        # the harness is shared with another property: none of the failed checks is one this property is about
+                        h["status"] = "ok"
+                        h["note"] = "failed checks belong to another property (filter %r): %s" % (s["only"], h["failed_checks"][:300])
                     else:
                         h["status"] = "fail"
                         h["trace"] = b[-3000:]
